@@ -180,4 +180,21 @@ CHECKS = {
                      "the type of the reply to a flush of a non-outstanding tag (Rflush or Rerror) is not asserted",
                      "the exact instant at which a handler completes relative to the flush being processed is chosen by the Go scheduler; the generator forces both orders and the concurrent burst"],
     ),
+    "C11": dict(
+        pkg="server",
+        level="fault_enumeration",
+        groups=[G("^TestC11_Shutdown$", 300, 2500, shrinktime="10s")],
+        rule="real ServeConn(SSession(SFileSys(mockfs))) with a raw reference-codec client. A fixed prefix binds fids, then 1..6 requests of generated kinds "
+             "(walk, clone, attach, open, opendir, create, read, write, stat, wstat, clunk, remove) are in flight: parked inside the mock file system holding their fid locks "
+             "(returning when their context is cancelled, or only after Stop has been entered), or completing normally in a burst at that instant; optionally the client has "
+             "stopped reading replies. Then one fault: read error after 0..30 bytes of a further frame, write error after 0..30 further output bytes (or under a blocked write), "
+             "peer close, or context cancel. Oracle: ServeConn returns within 10 s; the context of every parked handler is cancelled; handlers return; Stop ran exactly once; "
+             "afterwards the fid table (verif hook) has nothing bound or locked and every entry the mock handed out has exactly one release; a crash of the process is reported "
+             "through the journal. Non-trivial = at least one handler in flight at the fault; distinct by hash of the scenario.",
+        require_classes=dict(quick=["fault_readerr", "fault_writeerr", "fault_peerclose", "fault_cancel", "client_not_reading"] + ["inflight_" + k for k in "walk clone attach open opendir create read write stat wstat clunk remove".split()],
+                             thorough=[f + "×" + k for f in ("readerr", "writeerr", "peerclose", "cancel") for k in "walk clone attach open opendir create read write stat wstat clunk remove".split()]),
+        assumptions=["handlers return once cancelled (the property's proviso): parked file-system calls return when their context is done, some only after Stop was entered",
+                     "'within bounded time' is tested as 10 s (normal: well under a millisecond); the library's own 30 s I/O deadline never comes into play on these connections",
+                     "a read error combined with a client that has stopped reading is not generated: back-pressure stops the server from reading, so the error cannot be observed"],
+    ),
 }
